@@ -34,16 +34,17 @@ def run_unit(unit, repo='/repo', mode='partial', use_cache=True, outdir=None, ex
     t0 = time.time()
     stub = {}
     dropped = set()  # contracted functions whose contract no longer type-checks: dropped and inlined into their callers
+    comb_result = set()   # R23: functions whose `map` / `and_then` closures are expanded in the Result form (Option form tried first)
     adapt = {}       # R21: function -> {parameter: 'deref' | 'ref'} (the contract passes a parameter whose reference-ness changed)
     inline = {}      # R18: function -> helpers to inline at their call sites (a helper the function calls that is not under contract)
     last = None
     outdir = outdir or alt_outdir(repo)
     for attempt in range(10):
-        r = _run_once(unit, repo, mode, use_cache, outdir, extra_args, rlimit, set(stub), t0, inline, dropped, adapt)
+        r = _run_once(unit, repo, mode, use_cache, outdir, extra_args, rlimit, set(stub), t0, inline, dropped, adapt, comb_result)
         if r.get('resource_limit') and not rlimit:
             # a failing (or merely slow) query ran out of the default resource budget: decide it with a four times larger one before
             # calling the unit undecided (rlimit is a deterministic z3 resource count, not wall time)
-            r2 = _run_once(unit, repo, mode, use_cache, outdir, extra_args, 40, set(stub), t0, inline, dropped, adapt)
+            r2 = _run_once(unit, repo, mode, use_cache, outdir, extra_args, 40, set(stub), t0, inline, dropped, adapt, comb_result)
             if r2.get('status') == 'ok' or not r2.get('resource_limit'):
                 r = r2
         last = r
@@ -55,6 +56,10 @@ def run_unit(unit, repo='/repo', mode='partial', use_cache=True, outdir=None, ex
                 if adapt.setdefault(o, {}).get(pn) is None:
                     adapt[o][pn] = how
                     fresh = True
+        amb_ = [o for o in r['frontend_owners'] if o in set((r.get('meta') or {}).get('comb_ambiguous', [])) and o not in comb_result]
+        if amb_ and not fresh:
+            comb_result.update(amb_)
+            continue        # the Option form of an ambiguous combinator did not type-check: try the Result form (R23)
         if fresh:
             continue        # first adapt the contract text to the parameters' present reference-ness (R21), then look at what is left
         new = [o for o in r['frontend_owners'] if o not in stub]
@@ -89,9 +94,9 @@ def run_unit(unit, repo='/repo', mode='partial', use_cache=True, outdir=None, ex
     return last
 
 
-def _run_once(unit, repo, mode, use_cache, outdir, extra_args, rlimit, stub, t0, inline=None, dropped=None, adapt=None):
+def _run_once(unit, repo, mode, use_cache, outdir, extra_args, rlimit, stub, t0, inline=None, dropped=None, adapt=None, comb_result=None):
     try:
-        meta = asm.assemble(unit, repo, mode, outdir, stub=stub, inline=inline, drop=dropped, adapt=adapt)
+        meta = asm.assemble(unit, repo, mode, outdir, stub=stub, inline=inline, drop=dropped, adapt=adapt, comb_result=comb_result)
     except asm.AssembleError as e:
         return {'status': 'undecided', 'reason': 'assemble: %s' % e, 'unit': unit, 'mode': mode, 'wall_s': time.time() - t0}
     text = open(meta['file']).read()
@@ -178,13 +183,13 @@ def _run_once(unit, repo, mode, use_cache, outdir, extra_args, rlimit, stub, t0,
     if out is None or 'verification-results' not in out:
         res.update({'status': 'undecided', 'reason': 'verus produced no result (compile error in assembled text?)',
                     'stderr': p.stderr[-4000:], 'diagnostics': [d.get('rendered', d.get('message')) for d in errs][:10],
-                    'frontend_owners': frontend_owners(), 'ref_adapt': ref_adapt()})
+                    'frontend_owners': frontend_owners(), 'ref_adapt': ref_adapt(), 'meta': meta})
         return res
     vr = out['verification-results']
     if vr.get('encountered-vir-error') or (not vr.get('success') and vr.get('errors', 0) == 0):
         res.update({'status': 'undecided', 'reason': 'verus front-end error (unsupported construct / type error)',
                     'diagnostics': [d.get('rendered', d.get('message')) for d in errs][:10],
-                    'frontend_owners': frontend_owners(), 'ref_adapt': ref_adapt()})
+                    'frontend_owners': frontend_owners(), 'ref_adapt': ref_adapt(), 'meta': meta})
         return res
     funcs = {}
     smt_ms = 0
